@@ -5,6 +5,14 @@ package main
 // construction: the generator keeps, next to the language's scopes, static facts about every
 // variable (bounds of integers, minimal/maximal lengths of strings and slices, locks of loop
 // variables and of ranged operands) and a static bound of how often every position is executed.
+//
+// Feature keys: if elseif else switch switch_notag switch_true case default empty_case for3 for3_noinit
+// for3_noinc for3_len forcond forever range_slice range_string range_index_only break continue nest3
+// func func_noparens call call_stmt call_as_arg multi_return multi_assign def_call return_nested
+// print print_in_func global_write_in_func panic def_var def_var_init def_var_infer def_short
+// def_var_multi def_var_multi_init def_short_multi assign assign_multi swap compound compound_str
+// incdec slice_lit slice_alias slice_set slice_grow copy index subscript concat itoa and or not
+// logical_mix cmp_chain neg_literal minus_minus name_reuse mutated_invalid.
 
 import (
 	"fmt"
@@ -14,7 +22,6 @@ import (
 	"path/filepath"
 	"regexp"
 	"sort"
-	"strconv"
 	"strings"
 	"time"
 )
@@ -62,7 +69,7 @@ const (
 	pgGrowMax = 4      // program-wide budget of executions of s[len(s)] = v
 	pgLMax    = pgKMax + pgGrowMax
 	pgMultMax = 40  // bound of executions of one position
-	pgWorkMax = 450 // bound of executed simple statements per program
+	pgWorkMax = 380 // bound of executed simple statements per program
 )
 
 // pgSym is a variable together with the static facts the Safe mode relies on.
@@ -2393,6 +2400,8 @@ var pgSelfTestCombos = []GenOpts{
 
 var pgElemRead = regexp.MustCompile(`echo \\\$\{(\$\{[A-Za-z0-9_]+\})\[([^\]]*)\]\}`)
 
+var pgArith = regexp.MustCompile(`(?m)^([A-Za-z0-9_]+)="\$\(\(.*\)\)"$`)
+
 // pgRunSafe transpiles src with the real library, runs the Bash script and describes what went wrong ("" if nothing).
 // The strict variant additionally detects reads out of range (instrumented script) and large integers.
 func pgRunSafe(dir string, src string, feat map[string]int, strict bool) (problem string, out string, dur time.Duration) {
@@ -2405,7 +2414,9 @@ func pgRunSafe(dir string, src string, feat map[string]int, strict bool) (proble
 	script := filepath.Join(dir, "p.sh")
 	text := unhx(strings.TrimPrefix(res, "ok:"))
 	if strict {
-		// let the substring helper and every slice element read report indices out of range
+		// let every arithmetic result report large values, the substring helper and every slice element read indices out of range
+		text = pgArith.ReplaceAllString(text, "$0\nif [ \"${$1#-}\" -ge 1000000 ]; then echo \"large integer ${$1}\" >&2; fi")
+		text = strings.Replace(text, "_sch() {\n", "_sch() {\n_cd=$(eval \"echo \\${${1}}\"); if [ $(eval \"echo \\${#${_cd}[@]}\") -gt $(eval \"echo \\${#${2}[@]}\") ]; then echo \"copy into a longer destination\" >&2; fi\n", 1)
 		text = pgElemRead.ReplaceAllString(text, "echo \\${$1[$2]?out of range}")
 		text = strings.Replace(text, "_ssh() {\n", "_ssh() {\nif [ ${2} -lt 0 ] || [ $((${3}+1)) -lt ${2} ] || [ ${3} -ge ${#1} ]; then echo \"substring out of range: ${2} ${3} of ${#1}\" >&2; fi\n", 1)
 	}
@@ -2439,14 +2450,6 @@ func pgRunSafe(dir string, src string, feat map[string]int, strict bool) (proble
 	case code == 1 && feat["panic"] > 0 && strings.HasPrefix(lines[len(lines)-1], "panic:"):
 	case code != 0:
 		problem = fmt.Sprintf("exit %d", code)
-	}
-	if problem == "" && strict {
-		// integers must stay small
-		for _, w := range strings.Fields(out) {
-			if v, err := strconv.Atoi(w); err == nil && pgAbs(v) >= 1000000 {
-				problem = "large integer " + w
-			}
-		}
 	}
 	if len(problem) > 300 {
 		problem = problem[:300]
